@@ -266,7 +266,7 @@ func (e ProtoEngine) Gen(prop, tier string, seed uint64, yield func(c any) bool)
 			}
 		}
 	case "bac":
-		n := 600
+		n := 6000
 		if thorough {
 			n = 1200000
 		}
@@ -297,7 +297,7 @@ func (e ProtoEngine) Gen(prop, tier string, seed uint64, yield func(c any) bool)
 				}
 			}
 		}
-		m := 400
+		m := 3000
 		if thorough {
 			m = 600000
 		}
